@@ -1,13 +1,13 @@
 """Check context: configurations, obligations, known findings, evidence, exit protocol."""
 import json, os, sys, time
 
-from .frontend import (AnalysisBroken, QUICK_CONFIGS, THOROUGH_CONFIGS, load_facts, VERIF)
+from .frontend import (AnalysisBroken, QUICK_CONFIGS, THOROUGH_CONFIGS, load_facts, VERIF, REPO)
 from .core.program import Program, fmt_atom, fmt_term
 from .core.callgraph import CallGraph
 from .core.inline import inline_all, keep_names
 
 KNOWN_FILE = os.path.join(VERIF, "known_findings.json")
-EVIDENCE_DIR = os.path.join(VERIF, "evidence")
+EVIDENCE_DIR = os.environ.get("CJET_EVIDENCE_DIR") or os.path.join(VERIF, "evidence")
 REPLAY_DIR = os.path.join(EVIDENCE_DIR, "replay")
 
 TRUSTED_BASE = [
@@ -67,7 +67,7 @@ class Ctx:
             rec = {"key": key, "rule": rule, "function": fkey, "site": site, "what": what,
                    "status": "discharged", "configs": [], "nontrivial": bool(nontrivial)}
             if hasattr(fn, "file") and fn.file:
-                rec["where"] = "%s:%d" % (os.path.relpath(fn.file, "/repo"), fn.line)
+                rec["where"] = "%s:%d" % (os.path.relpath(fn.file, REPO), fn.line)
             self.obligations[key] = rec
             self.order.append(key)
         if cfg not in rec["configs"]:
